@@ -97,6 +97,8 @@ class Drive:
         self.mode_writes = []
         self.pdo_modes = []
         self.on_change = None
+        self.lag = 0            # > 0: a commanded transition shows only after that many further accesses
+        self.pending = None
 
     def sw(self):
         v = BASE[self.state]
@@ -110,6 +112,11 @@ class Drive:
         self.in_call = getattr(self, "in_call", 0) + 1
         if getattr(self, "cap_on", False) and self.in_call > STEP_CAP:
             raise Runaway("drive interactions without end")
+        if self.pending is not None and self.events >= self.pending[1]:
+            self.state, self.pending = self.pending[0], None
+            self.ev.append({"e": "lagged", "to": self.state})
+            if self.on_change:
+                self.on_change()
         if self.auto_after is not None and self.events > self.auto_after and self.state in AUTO:
             self.state = AUTO[self.state]
             self.ev.append({"e": "auto"})
@@ -126,9 +133,12 @@ class Drive:
         self.tick()
         new = drive_step(self.state, cw, self.prev)
         self.prev = cw
-        changed = new != self.state
+        if self.lag:
+            self.pending = (new, self.events + self.lag) if new != self.state else None
+            self.ev.append({"e": "cw", "val": cw, "after": self.state, "lag": True})
+            return
         self.state = new
-        self.ev.append({"e": "cw", "val": cw, "after": new})
+        self.ev.append({"e": "cw", "val": cw, "after": new, "lag": False})
         if self.on_change:
             self.on_change()
 
@@ -242,9 +252,17 @@ def run_case(case: dict) -> dict:
                 ev.append({"e": "opmode", "mode": mode, "mask": mask & 0xFFFF, "writes": list(drive.mode_writes), "result": res})
     else:
         drive = Drive(ev, case["init"], case.get("extra", False), case.get("auto_after"))
+        drive.lag = case.get("lag", 0)
         ev.append({"e": "init", "state": case["init"]})
         net, node = mk_node(drive, case.get("transport", "sdo"))
         for target in case["targets"]:
+            if target.startswith("!"):
+                # the drive changes state by itself between two assignments (fault, lost supply, ...)
+                drive.state, drive.pending = target[1:], None
+                ev.append({"e": "ext", "to": drive.state})
+                if drive.on_change:
+                    drive.on_change()
+                continue
             ev.append({"e": "target", "name": target})
             t_idx = len(ev)
             drive.in_call, drive.cap_on = 0, True
